@@ -255,6 +255,15 @@ def check_case(case):
         if short_sniff and p is None:
             # the function entry points give no documentEncoding to look at: the lost BOM shows in the tree
             return Verdict("known", finding="C05-short-byte-reads-sniffing", nontrivial=nontrivial, sig=sig, classes=classes)
+        if short_sniff:
+            # the BOM was missed but a <meta> in the document names the same encoding: documentEncoding is right and the lost BOM shows
+            # as a U+FEFF character at the start of the text - exactly that tree, nothing else, is the recorded finding
+            try:
+                alt_tree = run_parse("\ufeff" + ref_text, 10240, {}, ref_entry)[0]
+            except Exception:
+                alt_tree = None
+            if alt_tree is not None and got_tree == alt_tree:
+                return Verdict("known", finding="C05-short-byte-reads-sniffing", nontrivial=nontrivial, sig=sig, classes=classes)
         d = obs.first_diff(want_tree, got_tree)
         return Verdict("fail", "tree differs from the one-shot str parse at record %d: expected %s, got %s; %s; text %s" % (d[0], short(d[1], 120), short(d[2], 120), cfg, short(ref_text, 200)),
                        "tree:%s" % ("bytes" if kind.startswith("byte") else "text"), nontrivial=nontrivial, sig=sig, classes=classes)
